@@ -7,9 +7,10 @@ CLAUSES = {"C04": ["ExactlyOneNotice", "NeverTwice", "RemovedSilent", "NoStray",
            "C06": ["NoStaleRelation", "NeverTwice"]}
 CORE_INV = ["ExactlyOneNotice", "NeverTwice", "RemovedSilent", "NoStaleRelation"]
 
-POINTS = {("pid", "kill"): ("unreg.delete", "term.drain"), ("name", "kill"): ("unreg.name", "term.drain"),
-          ("name", "unregname"): ("unname.delete", "term.drain"), ("alias", "kill"): ("unreg.alias", "term.drain"),
-          ("event", "kill"): ("unreg.event", "term.drain")}
+# (target kind, terminator) -> yield points of the table delete and of the drain
+POINTS = {("pid", "kill"): ("unreg.delete", "term.drain"), ("name", "kill"): ("unreg.release", "term.drain"),
+          ("name", "unregname"): ("unname.delete", "term.drain"), ("alias", "kill"): ("unreg.release", "term.drain"),
+          ("event", "kill"): ("unreg.release", "term.drain")}
 
 CONS = {
     "a": {"L1": {"kind": "link", "undo": False}, "L2": {"kind": "monitor", "undo": False}},
